@@ -9,6 +9,7 @@ from .. import AnalysisError
 from ..finite import (AttrObj, ClassRef, ConstEval, FuncRef, TypeRef, Undecidable, allowed_sets,
                       local_tables, module_table, run_block)
 from ..hints import dsl_bindings
+from ..anchors import condition_parser, condition_writer, path_parser
 from ..program import FuncInfo, norm, head
 from ..report import Finding, RuleResult
 
@@ -35,7 +36,7 @@ def rule_sig(ctx):
     callables = prog.module("callables")
     bound = set()
     # names a spec can reach at the callable getattr site
-    fs = prog.func("conditions.ConditionLike.from_spec")
+    fs = condition_parser(prog)
     reach = None
     for call, (txt, allowed) in allowed_sets(prog, fs).items():
         if "call" in txt:
@@ -194,8 +195,8 @@ def rule_ladder(ctx):
     constructor signature: exactly one non-raising branch, compatible shapes."""
     prog = ctx.prog
     r = RuleResult("R-LADDER", floor=30)
-    reader = prog.func("conditions.ConditionLike.from_spec")
-    writer = prog.func("conditions.Condition.to_json_like")
+    reader = condition_parser(prog)
+    writer = condition_writer(prog)
     rch = _ladder(reader)
     wch = _ladder(writer)
     expect = {"()": "None", "v": "single", "*": "list", "**": "dict"}
@@ -252,7 +253,7 @@ def rule_ladder(ctx):
 def rule_tables_c09(ctx):
     prog = ctx.prog
     r = RuleResult("R-TABLE/C09", floor=4)
-    fs = prog.func("conditions.ConditionLike.from_spec")
+    fs = condition_parser(prog)
     t = local_tables(prog, fs)
     where = f"{fs.file}:{fs.node.lineno}"
     for name in ("BINARY_OPS", "CONDITION_DATUM_TYPES", "CALLABLE_LOOKUP", "PRE_PROC_LOOKUP", "DTYPE_LOOKUP"):
@@ -321,7 +322,7 @@ def rule_tables_c11(ctx):
     r = RuleResult("R-TABLE/C11", floor=7)
     cond = prog.module("conditions")
     inv = module_table(prog, cond, "INV_DTYPE_LOOKUP")
-    fs = prog.func("conditions.ConditionLike.from_spec")
+    fs = condition_parser(prog)
     d = local_tables(prog, fs).get("DTYPE_LOOKUP")
     if d is None:
         raise AnalysisError("DTYPE_LOOKUP not evaluable")
@@ -348,8 +349,8 @@ def rule_conv(ctx):
     for the same value shapes (scalar / list of types; data-path arguments)."""
     prog = ctx.prog
     r = RuleResult("R-CONV", floor=3)
-    reader = prog.func("conditions.ConditionLike.from_spec")
-    writer = prog.func("conditions.Condition.to_json_like")
+    reader = condition_parser(prog)
+    writer = condition_writer(prog)
     where = f"{writer.file}:{writer.node.lineno}"
     # reader: DTYPE_LOOKUP applied to scalar and to each element of a list?
     rsrc = ast.unparse(reader.node)
@@ -470,7 +471,7 @@ def rule_tokens(ctx):
     from_spec: the operator branch must match the *whole* key."""
     prog = ctx.prog
     r = RuleResult("R-TOKENS", floor=2)
-    f = prog.func("conditions.ConditionLike.from_spec")
+    f = condition_parser(prog)
     t = local_tables(prog, f)
     where = f"{f.file}:{f.node.lineno}"
     found = 0
